@@ -17,7 +17,7 @@ from vt.e1.values import (SArr, SList, STT, SNum, SMaxRank, SInf, INF, SNone, NO
                           fresh, fresh_fun, zi, zb, as_conc, is_conc_int, val_ite, arr_ite)
 from vt.e1 import npmodel
 from vt.e1 import heap
-from vt.e1.values import is_tag
+from vt.e1.values import is_tag, SObj
 
 
 class Obligation:
@@ -116,6 +116,13 @@ def _clone(v, memo):
         if id(v) in memo:
             return memo[id(v)]
         n = STT(v.ref, None, None, None, None, None)
+        memo[id(v)] = n
+        n.f = {k: _clone(x, memo) for k, x in v.f.items()}
+        return n
+    if isinstance(v, SObj):
+        if id(v) in memo:
+            return memo[id(v)]
+        n = SObj(v.ref)
         memo[id(v)] = n
         n.f = {k: _clone(x, memo) for k, x in v.f.items()}
         return n
@@ -545,7 +552,7 @@ class Executor:
                     base = self.ev(expr.value, state)
                 except Exception:
                     continue
-                if isinstance(base, STT):
+                if isinstance(base, (STT, SObj)):
                     cur = base.f.get(expr.attr)
                     base.f[expr.attr] = self.havoc_value(cur, state, expr.attr, grows=True)
                 continue
@@ -632,7 +639,7 @@ class Executor:
                 self.assign(t, x, state, node)
         elif isinstance(tgt, ast.Attribute):
             obj = self.ev(tgt.value, state)
-            if isinstance(obj, STT):
+            if isinstance(obj, (STT, SObj)):
                 self.frame_obj(obj, state, node.lineno, 'attribute %s' % tgt.attr)
                 obj.f[tgt.attr] = v
             else:
@@ -780,6 +787,10 @@ class Executor:
             if a in obj.f:
                 return obj.f[a]
             return ('method', obj, a)
+        if isinstance(obj, SObj):
+            if a not in obj.f:
+                raise Unsupported('attribute %s of a plain object is read before it is set (line %d)' % (a, node.lineno))
+            return obj.f[a]
         if isinstance(obj, SModule):
             if obj.name == 'np' and a == 'inf':
                 return INF
@@ -1072,6 +1083,9 @@ class Executor:
         if isinstance(op, ast.Mult) and ((isinstance(a, SList) and ints(b)) or (isinstance(b, SList) and ints(a))):
             lst, n = (a, b) if isinstance(a, SList) else (b, a)
             return self.list_repeat(lst, n, state, line)
+        if isinstance(b, STT) and isinstance(a, SArr) and len(a.shape) == 0 and isinstance(op, ast.Mult):
+            # a NumPy scalar (element of an array) times a TT: numpy returns NotImplemented, Python calls TT.__rmul__
+            return self.tt_binop(op, SNum('elem', cplx=a.cplx), b, state, line)
         if isinstance(a, SArr) or isinstance(b, SArr):
             if isinstance(op, ast.MatMult):
                 return npmodel.matmul(self, state, a, b, line)
